@@ -407,7 +407,10 @@ class FileResponse(Response, FileResponseMixin):
                 StatusStringMapping[exception.status_code],
                 [*(exception.headers or {}).items()],
             )
-            yield b"" if exception.content is None else exception.content.encode("utf8")
+            if send_header_only or exception.content is None:
+                yield b""
+            else:
+                yield exception.content.encode("utf8")
             return
 
         if len(ranges) == 1:
